@@ -9,7 +9,7 @@ import props, sexp
 
 WRAPPERS = ["value", "clone", "ref", "box", "rc", "boxed", "either", "cache"]
 
-CTORS = props.CORE + props.ITER + props.RECOVER + props.EMIT + ["MapWith", "ToSlice"]
+CTORS = props.CORE + props.ITER + props.RECOVER + props.EMIT + ["MapWith", "ToSlice"] + ["WithCtx", "IgnoreWithCtx", "JustCfg", "JustCfg"]
 
 def histories(rng, pool, tier):
     """index sequences over the pool: exhaustive for small pools, random beyond"""
